@@ -27,19 +27,20 @@ def pat_str(pat):
 
 
 def url(path):
-    return "".join("/" + s for s in path)
+    # "aNL" stands for the literal a followed by a line feed: an extension of a literal segment that `$` in a regular expression does not see
+    return "".join("/" + s.replace("NL", "\n") for s in path)
 
 
 def norm_binding(v):
     if v is None or v == "":
         return []
-    return v.split("/")       # (the tolerated trailing slash is not a segment: a value that ends in one is not what the specification binds)
+    return v.replace("\n", "NL").split("/")       # (the tolerated trailing slash is not a segment: a value that ends in one is not what the specification binds)
 
 
 def consts(ctx):
     if ctx.quick:
-        return dict(Lits='{"a", "a.b"}', Alpha='{"a", "ab", "axb", ""}', MaxPat=3, MaxPath=4, MaxRoutes=2)
-    return dict(Lits='{"a", "ab", "a.b"}', Alpha='{"a", "ab", "b", "axb", ""}', MaxPat=4, MaxPath=5, MaxRoutes=3)
+        return dict(Lits='{"a", "a.b"}', Alpha='{"a", "ab", "axb", "", "aNL"}', MaxPat=3, MaxPath=4, MaxRoutes=2)
+    return dict(Lits='{"a", "ab", "a.b"}', Alpha='{"a", "ab", "b", "axb", "", "aNL"}', MaxPat=4, MaxPath=5, MaxRoutes=3)
 
 
 def cfg_for(c, init, invs=()):
